@@ -5,6 +5,7 @@ pub mod c01;
 pub mod c02;
 #[rustfmt::skip]
 pub mod c02_tuples;
+pub mod c03;
 pub mod c04;
 pub mod c05;
 pub mod c06;
@@ -21,6 +22,7 @@ pub fn run(id: &str, rep: &mut Report) -> bool {
     match id {
         "C01" => c01::run(rep),
         "C02" => c02::run(rep),
+        "C03" => c03::run(rep),
         "C04" => c04::run(rep),
         "C05" => c05::run_part_a(rep),
         "C06" => c06::run_part_a(rep),
@@ -42,6 +44,7 @@ pub fn replay(id: &str, case: &Value) -> Result<Vec<(String, String)>, String> {
     match id {
         "C01" => c01::replay(case),
         "C02" => c02::replay(case),
+        "C03" => c03::replay(case),
         "C04" => c04::replay(case),
         "C05" => c05::replay_a(case),
         "C06" => c06::replay_a(case),
